@@ -1,0 +1,136 @@
+// Copyright 2021 TiKV Project Authors.
+//
+// Licensed under the Apache License, Version 2.0 (the "License");
+// you may not use this file except in compliance with the License.
+// You may obtain a copy of the License at
+//
+//     http://www.apache.org/licenses/LICENSE-2.0
+//
+// Unless required by applicable law or agreed to in writing, software
+// distributed under the License is distributed on an "AS IS" BASIS,
+// See the License for the specific language governing permissions and
+// limitations under the License.
+
+//go:build verif
+// +build verif
+
+// Machine-checked contracts for placement-rule fitting (checked by /verif/govc; comment-only file).
+package placement
+
+// Surroundings not verified here (deterministic, side-effect free): label-constraint matching, rule/store sanity
+// check, the floating-point isolation score.
+//@ opaque MatchLabelConstraints, checkRule, isolationScore
+
+// ---- the documented order on fits ----
+// more peers, then fewer role mismatches, then higher isolation score
+//@ func compareRuleFit
+//@   props C12
+//@   requires a != nil && b != nil
+//@   ensures [more-peers] len(a.Peers) != len(b.Peers) ==> result == ite(len(a.Peers) < len(b.Peers), 0 - 1, 1)
+//@   ensures [fewer-mismatches] len(a.Peers) == len(b.Peers) && len(a.PeersWithDifferentRole) != len(b.PeersWithDifferentRole) ==> result == ite(len(a.PeersWithDifferentRole) > len(b.PeersWithDifferentRole), 0 - 1, 1)
+//@   ensures [isolation] len(a.Peers) == len(b.Peers) && len(a.PeersWithDifferentRole) == len(b.PeersWithDifferentRole) ==> result == ite(a.IsolationScore < b.IsolationScore, 0 - 1, ite(a.IsolationScore > b.IsolationScore, 1, 0))
+//@   modifies nothing
+
+// rule by rule (first difference decides), finally fewer orphans
+//@ func CompareRegionFit
+//@   props C12
+//@   requires a != nil && b != nil && (forall i :: 0 <= i && i < len(a.RuleFits) ==> a.RuleFits[i] != nil) && (forall i :: 0 <= i && i < len(b.RuleFits) ==> b.RuleFits[i] != nil)
+//@   ensures [range] result == 0 - 1 || result == 0 || result == 1
+//@   ensures [orphans-only-if-equal-rules] (forall i :: 0 <= i && i < len(a.RuleFits) && i < len(b.RuleFits) ==> ruleOrder(a.RuleFits[i], b.RuleFits[i]) == 0) ==> result == ite(len(a.OrphanPeers) < len(b.OrphanPeers), 1, ite(len(a.OrphanPeers) > len(b.OrphanPeers), 0 - 1, 0))
+//@   ensures [first-difference] forall i :: 0 <= i && i < len(a.RuleFits) && i < len(b.RuleFits) && ruleOrder(a.RuleFits[i], b.RuleFits[i]) != 0 && (forall j :: 0 <= j && j < i ==> ruleOrder(a.RuleFits[j], b.RuleFits[j]) == 0) ==> result == ruleOrder(a.RuleFits[i], b.RuleFits[i])
+//@   loop 1 invariant forall j :: 0 <= j && j <= rangeindex && j < len(b.RuleFits) ==> ruleOrder(a.RuleFits[j], b.RuleFits[j]) == 0
+//@   modifies nothing
+//@ pure ruleOrder(a *RuleFit, b *RuleFit) = ite(len(a.Peers) != len(b.Peers), ite(len(a.Peers) < len(b.Peers), 0 - 1, 1), ite(len(a.PeersWithDifferentRole) != len(b.PeersWithDifferentRole), ite(len(a.PeersWithDifferentRole) > len(b.PeersWithDifferentRole), 0 - 1, 1), ite(a.IsolationScore < b.IsolationScore, 0 - 1, ite(a.IsolationScore > b.IsolationScore, 1, 0))))
+
+// satisfied exactly when the rule is filled with matching roles; the region when every rule is and no orphan remains
+//@ func (*RuleFit).IsSatisfied
+//@   props C12
+//@   requires f.Rule != nil
+//@   ensures result <==> (len(f.Peers) == f.Rule.Count && len(f.PeersWithDifferentRole) == 0)
+//@   modifies nothing
+
+//@ func (*RegionFit).IsSatisfied
+//@   props C12
+//@   requires forall i :: 0 <= i && i < len(f.RuleFits) ==> f.RuleFits[i] != nil && f.RuleFits[i].Rule != nil
+//@   ensures result <==> (len(f.RuleFits) > 0 && len(f.OrphanPeers) == 0 && (forall i :: 0 <= i && i < len(f.RuleFits) ==> len(f.RuleFits[i].Peers) == f.RuleFits[i].Rule.Count && len(f.RuleFits[i].PeersWithDifferentRole) == 0))
+//@   loop 1 invariant forall i :: 0 <= i && i <= rangeindex ==> len(f.RuleFits[i].Peers) == f.RuleFits[i].Rule.Count && len(f.RuleFits[i].PeersWithDifferentRole) == 0
+//@   modifies nothing
+
+// ---- role tables ----
+//@ pure isLearnerPeer(p *fitPeer) = p.Peer != nil && p.Peer.Role == 1
+//@ pure strictMatch(p *fitPeer, role PeerRoleType) = ite(role == "voter", !isLearnerPeer(p), ite(role == "leader", p.isLeader, ite(role == "follower", !isLearnerPeer(p) && !p.isLeader, ite(role == "learner", isLearnerPeer(p), false))))
+
+//@ func (*fitPeer).matchRoleStrict
+//@   props C12
+//@   ensures result <==> strictMatch(p, role)
+//@   modifies nothing
+
+// a non-learner can never be counted for a learner rule; everything else can be converted
+//@ func (*fitPeer).matchRoleLoose
+//@   props C12
+//@   ensures result <==> (role != "learner" || isLearnerPeer(p))
+//@   modifies nothing
+
+// ---- one rule's fit: the selection in order, mismatches listed exactly when there are some ----
+//@ func newRuleFit
+//@   props C12
+//@   requires rule != nil
+//@   ensures [rule] result != nil && result.Rule == rule
+//@   ensures [peers] len(result.Peers) == len(peers) && (forall j :: 0 <= j && j < len(peers) ==> result.Peers[j] == peers[j].Peer)
+//@   ensures [mismatch-count] len(result.PeersWithDifferentRole) <= len(peers)
+//@   ensures [no-mismatch-iff-all-strict] len(result.PeersWithDifferentRole) == 0 <==> (forall j :: 0 <= j && j < len(peers) ==> strictMatch(peers[j], rule.Role))
+//@   loop 1 invariant result_rf_ok(rf, peers, rule, rangeindex)
+//@ pure result_rf_ok(rf *RuleFit, peers []*fitPeer, rule *Rule, k int) = rf != nil && rf.Rule == rule && len(rf.Peers) == k + 1 && (forall j :: 0 <= j && j <= k ==> rf.Peers[j] == peers[j].Peer) && 0 <= len(rf.PeersWithDifferentRole) && len(rf.PeersWithDifferentRole) <= k + 1 && (len(rf.PeersWithDifferentRole) == 0 <==> (forall j :: 0 <= j && j <= k ==> strictMatch(peers[j], rule.Role)))
+
+// ---- the backtracking search (validity of what it does; optimality is NOT claimed, see DESIGN.md) ----
+//@ pure wfWorker(w *fitWorker) = w != nil && allocated(w.peers.ptr) && allocated(w.rules.ptr) && allocated(w.bestFit.RuleFits.ptr) && len(w.bestFit.RuleFits) == len(w.rules) && (forall j :: 0 <= j && j < len(w.rules) ==> w.rules[j] != nil && w.rules[j].Count >= 0) && (forall j :: 0 <= j && j < len(w.peers) ==> w.peers[j] != nil && allocated(w.peers[j]))
+
+// Candidates offered to a rule: unselected peers that can still be converted to the rule's role and whose store
+// matches the rule's label constraints; never more peers than the rule's count are asked for.
+//@ func (*fitWorker).fitRule
+//@   props C12
+//@   requires wfWorker(w) && index >= 0
+//@   ensures [no-leaked-selection] forall fp *fitPeer :: allocated(fp) && old(allocated(fp)) && fp.selected ==> old(fp.selected)
+//@   ensures [past-the-end] index >= len(w.rules) ==> !result
+//@   ensures [wf] wfWorker(w)
+//@   at enumPeers 1 assert [count] count >= 0 && count <= w.rules[index].Count || w.rules[index].Count < 0
+//@   at enumPeers 1 assert [count-candidates] count <= len(candidates) && arg1 == nil
+//@   at enumPeers 1 assert [candidates-valid] forall j :: 0 <= j && j < len(candidates) ==> candidates[j] != nil && !candidates[j].selected && (w.rules[index].Role != "learner" || isLearnerPeer(candidates[j]))
+//@   loop 1 invariant wfWorker(w) && (forall fp *fitPeer :: allocated(fp) && old(allocated(fp)) && fp.selected ==> old(fp.selected)) && (forall j :: 0 <= j && j < len(candidates) ==> candidates[j] != nil && allocated(candidates[j]) && !candidates[j].selected && (w.rules[index].Role != "learner" || isLearnerPeer(candidates[j])))
+//@   modifies w.bestFit.RuleFits[*], w.bestFit.OrphanPeers, all fitPeer.selected
+
+// No selection leaks out of the enumeration: a flag that is set afterwards was set before (every flag set while
+// enumerating is cleared again). A combination is judged only when it has exactly `count` peers.
+//@ func (*fitWorker).enumPeers
+//@   props C12
+//@   requires wfWorker(w) && 0 <= index && index < len(w.rules) && 0 <= count && len(selected) <= count
+//@   ensures [no-leaked-selection] forall fp *fitPeer :: allocated(fp) && old(allocated(fp)) && fp.selected ==> old(fp.selected)
+//@   ensures [wf] wfWorker(w)
+//@   at compareBest 1 assert [exactly-count] len(selected) == count
+//@   loop 1 modifies w.bestFit.RuleFits[*], w.bestFit.OrphanPeers, all fitPeer.selected
+//@   loop 1 invariant wfWorker(w) && (forall fp *fitPeer :: allocated(fp) && old(allocated(fp)) && fp.selected ==> old(fp.selected))
+//@   modifies w.bestFit.RuleFits[*], w.bestFit.OrphanPeers, all fitPeer.selected
+
+// A strictly better combination for rule `index` invalidates everything recorded for later rules before they are re-fitted.
+//@ func (*fitWorker).compareBest
+//@   props C12
+//@   requires wfWorker(w) && 0 <= index && index < len(w.rules)
+//@   ensures [no-leaked-selection] forall fp *fitPeer :: allocated(fp) && old(allocated(fp)) && fp.selected ==> old(fp.selected)
+//@   ensures [wf] wfWorker(w)
+//@   loop 1 modifies w.bestFit.RuleFits[*]
+//@   at fitRule 1 assert [recorded] w.bestFit.RuleFits[index] == rf && arg0 == index + 1
+//@   at fitRule 1 assert [later-reset] forall i :: index < i && i < len(w.rules) ==> w.bestFit.RuleFits[i] == nil
+//@   at fitRule 2 assert [next] arg0 == index + 1
+//@   loop 1 invariant index < i && w.bestFit.RuleFits[index] == rf && wfWorker(w) && (forall k :: index < k && k < i ==> w.bestFit.RuleFits[k] == nil) && (forall fp *fitPeer :: allocated(fp) && old(allocated(fp)) && fp.selected ==> old(fp.selected))
+//@   modifies w.bestFit.RuleFits[*], w.bestFit.OrphanPeers, all fitPeer.selected
+
+// The orphan list is exactly the unselected peers, in order, once every rule has been visited.
+//@ func (*fitWorker).updateOrphanPeers
+//@   props C12
+//@   requires wfWorker(w)
+//@   ensures [wf] wfWorker(w)
+//@   ensures [not-at-end] index != len(w.rules) ==> w.bestFit == old(w.bestFit)
+//@   ensures [only-unselected] index == len(w.rules) ==> len(w.bestFit.OrphanPeers) <= len(w.peers)
+//@   ensures [none-iff-all-selected] index == len(w.rules) ==> (len(w.bestFit.OrphanPeers) == 0 <==> (forall j :: 0 <= j && j < len(w.peers) ==> w.peers[j].selected))
+//@   loop 1 invariant len(w.bestFit.OrphanPeers) <= rangeindex + 1 && (len(w.bestFit.OrphanPeers) == 0 <==> (forall j :: 0 <= j && j <= rangeindex ==> w.peers[j].selected))
+//@   modifies w.bestFit.OrphanPeers
